@@ -33,8 +33,23 @@ def main(argv=None):
             raise
         prog = Program(args.repo)
         report = Report(prop, args.tier)
-        mod.run(prog, report, args.tier)
+        try:
+            mod.run(prog, report, args.tier)
+        except AnalysisError as e:
+            # an extractor gave up part-way.  If rules that did run already
+            # found violations, report those (exit 1); otherwise this is not
+            # a verdict (exit 2).
+            if not any(o.status == 'violation' for o in report.obs):
+                raise
+            report.note('analysis incomplete: %s' % e)
+            print('ANALYSIS-INCOMPLETE property=%s: %s' % (prop, e))
+            report.floors.clear()
         rc = finish(report, prog, mod.LEVEL, t0, seed, mod.META)
+        if rc == 0 and any(n.startswith('analysis incomplete')
+                           for n in report.notes):
+            # all violations were known findings but the run is incomplete
+            print('ANALYSIS-ERROR property=%s: incomplete analysis' % prop)
+            rc = 2
         if args.replay:
             import json
             want = json.load(open(args.replay))['finding']
